@@ -1,5 +1,6 @@
 import Driver.Common
 import RSocketModel.Credit
+import RSocketModel.Collector
 open RSocketModel RSocketModel.Credit
 namespace Driver
 
@@ -25,5 +26,23 @@ def cmdCredit (args : List String) : String :=
         else ["bad-op"]
     " ".intercalate (go (init (List.range k) fl fa) evs [] 0)
   | _, _, _ => "bad-op"
+
+/-- `collect <L> <C|-> ev...` with events `n0` (element), `n1` (element flagged complete), `c`, `e`:
+the collector's requests / cancel in order, then its final state -/
+def cmdCollect (args : List String) : String :=
+  match args with
+  | l :: c :: evs =>
+    match l.toNat?, (if c == "-" then some none else c.toNat?.map some) with
+    | some L, some C =>
+      let parsed : List (Option Collector.Ev) := evs.map fun e =>
+        if e == "n0" then some (.next false) else if e == "n1" then some (.next true)
+        else if e == "c" then some .complete else if e == "e" then some .error else none
+      if parsed.any Option.isNone then "bad-op" else
+      let r := Collector.run L C {} (parsed.filterMap id)
+      let outs := r.2.map fun o => match o with | .request n => s!"r{n}" | .cancel => "x"
+      let b := fun (x : Bool) => if x then "1" else "0"
+      " ".intercalate outs ++ s!" | done={b r.1.done} failed={b r.1.failed} total={r.1.total}"
+    | _, _ => "bad-op"
+  | _ => "bad-op"
 
 end Driver
